@@ -32,7 +32,7 @@ ASSUMPTIONS = [
 OPEN_STATEMENTS = [
     'canonicity (linear independence of normal-ordered monomials => equal operators have equal normal forms) is not proved for any algebra: checked by the canonicity stream (oracle) only',
     'fermions: soundness is proved against the Spec itself (normal_ordered_sound_melF: all matrix elements of Spec.melF agree, tolerance 0); bosons / quadratures: soundness is proved against the abstract relations (any ring interpretation satisfying CCR / [q,p] = i hbar) but the polynomial Spec (actB / actQuad) is not yet shown to satisfy them: that instance is checked by spec.eq on every generated case',
-    'InteractionOperator branch, chemist_ordered and reorder: correspondence + oracle only (no theorem)',
+    'InteractionOperator branch: correspondence + oracle only (no theorem); reorder: proved for FermionOperator (relabelling of the generators), other classes by correspondence + oracle',
     'termination fuel: noTerm uses fuel len(term)+1; that this fuel never runs out is a consequence of the soundness theorem for tolerance 0 (an exhausted fuel would return the empty dictionary) and is otherwise covered by the correspondence run',
 ]
 
